@@ -1,5 +1,5 @@
 """Rule registry: name -> callable(ctx, prop) -> RuleResult | [RuleResult]."""
-from . import trav, exh, backend, names, fields, compiler, memory, purity, determinism, patterns, unify, provenance, simplify, frontend, forwarding, guard, layer, instr, predicates
+from . import trav, exh, backend, names, fields, compiler, memory, purity, determinism, patterns, unify, provenance, simplify, frontend, forwarding, guard, layer, instr, predicates, algid
 
 
 def _trav_scoped(classes, name):
@@ -75,6 +75,7 @@ RULES = {
     "NOPROV": provenance.rule_noprov,
     "INSTRLINT": instr.rule_instrlint,
     "INSTRSPEC": instr.rule_instrspec,
+    "ALGID": algid.rule_algid,
     "PREDSPEC": predicates.rule_predspec,
     "CHECKFORM": predicates.rule_checkform,
     "CTXSHAPE": predicates.rule_ctxshape,
